@@ -37,12 +37,12 @@ func init() {
 		b := hexOf(d, "bytes")
 		ops, _ := d["ops"].(string)
 		auto, _ := d["auto"].(bool)
-		mk := func() *astits.Demuxer {
-			if auto {
-				return astits.NewDemuxer(context.Background(), bytes.NewReader(b))
-			}
-			return astits.NewDemuxer(context.Background(), bytes.NewReader(b), astits.DemuxerOptPacketSize(188))
+		optName, _ := d["option"].(string)
+		size := 0
+		if f, ok := d["size"].(float64); ok {
+			size = int(f)
 		}
+		mk := func() *astits.Demuxer { return c20Demuxer(b, auto, size, optName) }
 		dm := mk()
 		for _, op := range ops {
 			switch op {
@@ -55,11 +55,42 @@ func init() {
 			}
 		}
 		n, err := dm.Rewind()
-		after, fresh := DrainData(dm, len(b)), DrainData(mk(), len(b))
-		fmt.Printf("  after %q: Rewind=(%d,%v); %d data after the rewind, %d from a fresh demuxer\n", ops, n, err, len(after.Data), len(fresh.Data))
-		same := len(after.Data) == len(fresh.Data)
-		for i := 0; same && i < len(after.Data); i++ {
-			same = mc.Canon(after.Data[i]) == mc.Canon(fresh.Data[i])
+		// the complete sequence of answers (data, errors, end) through both APIs
+		obs := func(x *astits.Demuxer) (out []string) {
+			for i := 0; i < len(b)/8+16; i++ {
+				v, e := x.NextData()
+				switch {
+				case errors.Is(e, astits.ErrNoMorePackets):
+					return append(out, "end")
+				case e != nil:
+					out = append(out, "error: "+e.Error())
+				default:
+					out = append(out, mc.Canon(v))
+				}
+			}
+			return
+		}
+		after, fresh := obs(dm), obs(mk())
+		fmt.Printf("  after %q: Rewind=(%d,%v); %d answers after the rewind, %d from a fresh demuxer\n", ops, n, err, len(after), len(fresh))
+		same := equalStrs(after, fresh)
+		if same { // and through NextPacket
+			dm2 := mk()
+			for _, op := range ops {
+				switch op {
+				case 'P':
+					dm2.NextPacket()
+				case 'D':
+					dm2.NextData()
+				case 'R':
+					dm2.Rewind()
+				}
+			}
+			dm2.Rewind()
+			a, f := DrainPackets(dm2, len(b)), DrainPackets(mk(), len(b))
+			same = len(a.Pkts) == len(f.Pkts) && len(a.Errs) == len(f.Errs)
+			for i := 0; same && i < len(a.Pkts); i++ {
+				same = mc.Canon(a.Pkts[i]) == mc.Canon(f.Pkts[i])
+			}
 		}
 		if !same || n != 0 || err != nil {
 			return fmt.Errorf("%v", d["message"])
